@@ -24,13 +24,13 @@ func (Prop) Budget(tier string) int {
 func (Prop) Describe() core.Description {
 	return core.Description{
 		Level: "fault_enumeration",
-		Rule: "enumerated part (walked completely, every tier): 6 helpers x {V, *P} x 8 behaviours of the type under test x 4 Before x 4 After hook behaviours x 15 predicate kinds (met, unmet and near-miss variants) x 3 constraints x 4 positions {only, first, middle, last of 3} (+ TypeHelper variants, + types lacking the interface under both FailNow environments); " +
+		Rule: "enumerated part (walked completely, every tier): 6 helpers x {V, *P} x 8 behaviours of the type under test x 4 Before x 4 After hook behaviours x 21 predicate kinds (met, unmet, near-miss, one-byte-longer and empty variants) x 3 constraints x 4 positions {only, first, middle, last of 3} (+ TypeHelper variants, + types lacking the interface under both FailNow environments); " +
 			"seeded part: lists of 0-12 cases with tape-chosen combinations, several faults per list, 5 type shapes, both TestingT environments, optional recording TypeHelper, singleton re-runs of every case. " +
 			"Oracle written from the statement: per case, failure reported <=> applicable and unsatisfied (L2), nothing for inapplicable cases (L4), no panic escapes (L3), type lacking the interface reported (L1). " +
 			"A list is non-trivial if a collaborator fault fired in an applicable case; distinct = distinct (helper, shape, position class, constraint, behaviour, hooks, predicate, verdict) tuples reached",
 		Assumptions: []string{
 			"a panic of the type under test counts as an error whose text begins 'panic: <value>\\n' (pinned by the library's own Test_MarshalText_Panic and CHANGELOG 0.8.0)",
-			"three corners the statement leaves open are not generated: an error returned with a non-nil but empty slice; a type lacking the interface when no case is applicable; hooks that mutate the case they are handed",
+			"two corners the statement leaves open are not generated: an error returned with a non-nil but empty slice; hooks that mutate the case they are handed. A non-empty list for a type lacking the interface is expected to be reported whatever the constraints of its cases (the type is a property of T, not of a case; anchor: interface check on the first case)",
 			"failures are attributed to cases by bracketing recorder events between the scripted collaborator invocations of consecutive cases",
 			"lists longer than 12 cases and types other than the five scripted shapes are outside the bound",
 		},
@@ -39,7 +39,7 @@ func (Prop) Describe() core.Description {
 		Notes: map[string]string{
 			"sim_time_note": "C20 has no clock in it; sim_time_ns is 0 by construction",
 		},
-		RequiredProbesQuick: []string{"panic_recovered_call", "panic_recovered_hook", "error_with_data", "wrong_data_only", "inapplicable_faulty", "goexit_env", "invalid_regexp", "lacking_interface", "typehelper_used", "nil_receiver"},
+		RequiredProbesQuick: []string{"panic_recovered_call", "panic_recovered_hook", "error_with_data", "wrong_data_only", "inapplicable_faulty", "goexit_env", "invalid_regexp", "lacking_interface", "lacking_interface_all_inapplicable", "typehelper_used", "nil_receiver", "nil_value_unmarshal"},
 	}
 }
 
@@ -59,11 +59,14 @@ const mainBlock = nBeh * numHooks * numHooks * numPreds * nCons * nPos
 
 // EnumSize implements core.Property: 6 helpers x 2 shapes x (1 or 2 TypeHelper variants) main
 // blocks, then the nil-receiver block, then the lacking-interface block.
-func (Prop) EnumSize(tier string) int { return enumMain() + enumNil() + enumLacking() }
+func (Prop) EnumSize(tier string) int { return enumMain() + enumNil() + enumLacking() + enumNilValue() }
+
+// nil pointer as the listed value, unmarshal direction, *P: 3 encodings x behaviour x predicate x constraint x position x TypeHelper
+func enumNilValue() int { return 3 * nBeh * numPreds * nCons * nPos * 2 }
 
 func enumMain() int    { return 6 * 2 * 2 * mainBlock }
 func enumNil() int     { return 3 * numHooks * numHooks * numPreds * nCons * nPos }
-func enumLacking() int { return 6 * 3 * 2 * 2 * numBehaviours }
+func enumLacking() int { return 6 * 3 * 2 * 2 * numBehaviours * 2 }
 
 var plain = caseSpec{payload: "n"}
 
@@ -135,8 +138,31 @@ func enumSpec(i int) (ls listSpec, ok bool) {
 		return ls, true
 	}
 	i -= enumNil()
-	// lacking interface: helper x {OnlyM, OnlyU, None} x env x {1, 3 cases} x behaviour of the first case
+	if i >= enumLacking() {
+		r := i - enumLacking()
+		c := caseSpec{payload: "x", nilValue: true}
+		ls.typeHelper = r%2 == 1
+		r /= 2
+		enc := r % 3
+		r /= 3
+		c.beh = r % nBeh
+		r /= nBeh
+		c.pred = r % numPreds
+		r /= numPreds
+		c.constraint = r % nCons
+		r /= nCons
+		if c.isPanic() && (c.pred == pSuffixMet || c.pred == pExactMet) {
+			return ls, false
+		}
+		ls.enc, ls.dir, ls.shape = enc, dirUnmarshal, shP
+		ls.cases = place(c, r)
+		return ls, true
+	}
+	// lacking interface: helper x {OnlyM, OnlyU, None} x env x {1, 3 cases} x behaviour of the
+	// first case x {some case applicable, every case restricted to the other direction}
 	r := i
+	allOther := r%2 == 1
+	r /= 2
 	beh := r % numBehaviours
 	r /= numBehaviours
 	long := r%2 == 1
@@ -151,6 +177,14 @@ func enumSpec(i int) (ls listSpec, ok bool) {
 		ls.cases = []caseSpec{c, plain, {payload: "y", constraint: 1 + ls.dir}}
 	} else {
 		ls.cases = []caseSpec{c}
+	}
+	if allOther {
+		// the type is checked on the first case whatever its constraint (anchor: "interface
+		// check on first case"): a non-empty list for a type lacking the interface is
+		// reported even when every case is restricted to the other direction
+		for k := range ls.cases {
+			ls.cases[k].constraint = 2 - ls.dir
+		}
 	}
 	normalise(&ls)
 	return ls, true
@@ -181,7 +215,7 @@ func classOf(ls listSpec, l *listRun) (nontrivial bool, classes []uint64) {
 		if l.failures[i] > 0 {
 			verdict = 1
 		}
-		h.Add(uint64(ls.enc*2+ls.dir)<<40 | uint64(ls.shape)<<32 | uint64(pos)<<28 | uint64(c.constraint)<<24 | uint64(c.beh)<<16 | uint64(c.before)<<12 | uint64(c.after)<<8 | uint64(c.pred)<<4 | uint64(verdict)<<1 | b2u(ls.typeHelper))
+		h.Add(uint64(ls.enc*2+ls.dir)<<40 | uint64(ls.shape)<<32 | uint64(pos)<<28 | uint64(c.constraint)<<24 | uint64(c.beh)<<16 | uint64(c.before)<<12 | uint64(c.after)<<8 | uint64(c.pred)<<4 | uint64(verdict)<<1 | b2u(ls.typeHelper) | b2u(c.nilValue)<<44)
 		classes = append(classes, uint64(h))
 	}
 	if !ls.hasInterface() && len(ls.cases) > 0 {
@@ -206,6 +240,13 @@ func probes(res *core.Result, ls listSpec, l *listRun) {
 	}
 	if !ls.hasInterface() {
 		res.Probes.Inc("lacking_interface")
+		anyApp := false
+		for _, c := range ls.cases {
+			anyApp = anyApp || applicable(ls.dir, c.constraint)
+		}
+		if !anyApp && len(ls.cases) > 0 {
+			res.Probes.Inc("lacking_interface_all_inapplicable")
+		}
 		if l.failNows > 0 {
 			res.Probes.Inc("failnow_called")
 		}
@@ -263,6 +304,9 @@ func probes(res *core.Result, ls listSpec, l *listRun) {
 				res.Probes.Inc("wrong_data_only")
 			}
 		}
+		if c.nilValue {
+			res.Probes.Inc("nil_value_unmarshal")
+		}
 		if c.pred == pMatchInvalid {
 			res.Probes.Inc("invalid_regexp")
 			res.Faults.Inc("predicate_invalid_regexp")
@@ -275,7 +319,7 @@ func finish(res *core.Result, ls listSpec, o core.RunOpts, extraTrace []string) 
 	h := core.NewHash()
 	h.Add(uint64(ls.enc*2+ls.dir)<<8 | uint64(ls.shape)<<4 | b2u(ls.goexit)<<1 | b2u(ls.typeHelper))
 	for _, c := range ls.cases {
-		h.Add(uint64(c.constraint)<<24 | uint64(c.beh)<<16 | uint64(c.before)<<12 | uint64(c.after)<<8 | uint64(c.pred))
+		h.Add(uint64(c.constraint)<<24 | uint64(c.beh)<<16 | uint64(c.before)<<12 | uint64(c.after)<<8 | uint64(c.pred) | b2u(c.nilValue)<<28)
 	}
 	for _, e := range l.events {
 		h.AddString(e.what)
@@ -348,6 +392,7 @@ func genCase(t *core.Tape) caseSpec {
 	if t.Bool(1, 2) {
 		c.pred = t.Choose(numPreds)
 	}
+	c.nilValue = t.Bool(1, 8)
 	c.payload = [...]string{"p", "", "payload with spaces", "{\"k\":1}", "\x00\xff", "~"}[t.Choose(6)]
 	return c
 }
@@ -367,13 +412,10 @@ func (Prop) Run(t *core.Tape, o core.RunOpts) *core.Result {
 		ls.cases = append(ls.cases, genCase(t))
 	}
 	normalise(&ls)
-	if !ls.hasInterface() {
-		// the statement is only unambiguous when some case is applicable
-		if len(ls.cases) == 0 {
-			ls.cases = []caseSpec{genCase(t)}
-			normalise(&ls)
-		}
-		ls.cases[0].constraint = 0
+	if !ls.hasInterface() && len(ls.cases) == 0 {
+		// an empty list says nothing about the type
+		ls.cases = []caseSpec{genCase(t)}
+		normalise(&ls)
 	}
 	singles := t.Bool(1, 4)
 	finish(res, ls, o, nil)
